@@ -65,6 +65,10 @@ def _call(args):
         return WorkerError(desc + " | " + "".join(traceback.format_tb(e.__traceback__)[-3:])[-600:], kind)
 
 
+def _call_chunk(argslist):
+    return [_call(a) for a in argslist]
+
+
 class Ctx(object):
     def __init__(self, prop, tier, seed, jobs):
         self.prop = prop
@@ -121,7 +125,32 @@ class Ctx(object):
         error: on the unchanged tree it never happens, so it is reported as a violation
         (the code under test made the driver fail) and the item is skipped."""
         items = list(items)
-        for it, res in zip(items, self.map(kind, modname, fname, items, chunksize)):
+        pool = self.pool(kind)
+        cs = max(1, int(chunksize))
+        chunks = [items[i : i + cs] for i in range(0, len(items), cs)]
+        results = pool.imap(_call_chunk, [[(modname, fname, it) for it in ch] for ch in chunks], 1)
+        pids = set(p.pid for p in pool._pool)
+
+        def flat():
+            # a worker that dies (a segfault from runaway recursion in the code under test, ...) takes its
+            # task with it and the ordered iterator would wait for ever: the pool replaces the process, so
+            # a changed set of worker pids while we wait is the sign
+            for ch in chunks:
+                while True:
+                    try:
+                        rs = results.next(timeout=15)
+                        break
+                    except mp.TimeoutError:
+                        if set(p.pid for p in pool._pool) != pids:
+                            self.add(transitions=1)
+                            self.violation({"rule": "driver_exception", "build": kind, "expected": "the driver can execute this case on the real code", "observed": "a worker process died while this case (or one of its chunk) was running", "case": {"fn": "%s.%s" % (modname, fname), "item": ch[0]}})
+                            return
+                    except StopIteration:
+                        return
+                for it, res in zip(ch, rs):
+                    yield it, res
+
+        for it, res in flat():
             if isinstance(res, WorkerError):
                 self.add(transitions=1)
                 self.violation({"rule": "driver_exception", "build": kind, "expected": "the driver can execute this case on the real code", "observed": res.desc, "case": {"fn": "%s.%s" % (modname, fname), "item": it}})
